@@ -480,6 +480,29 @@ def m_vec_retain(e, st, fr, t, a):
     return UNIT
 
 
+def m_vec_extend(e, st, fr, t, a):
+    """Vec::extend(&mut v, iterable) for Option / Vec / VecIter arguments"""
+    v = _vec_at(e, st, a[0])
+    if v is None:
+        return NotImplemented
+    ref = peel(e, st, a[0])
+    src = a[1]
+    if isinstance(src, VAgg) and src.name == 'Option':
+        new = [e.get_field(src, ('v', 'Some', 0))] if _opt_disc(e, st, src, 'Vec::extend') == 1 else []
+    elif isinstance(src, VAgg) and src.name == 'Vec':
+        new = list(src.extra['items'])
+    elif isinstance(src, VAgg) and src.name == 'VecIter':
+        new = list(src.extra['items'][src.extra['idx']:])
+    else:
+        raise Unsupported(f"Vec::extend from {src!r}")
+    _store(e, st, ref, VAgg(name='Vec', fields=v.fields, extra={**v.extra, 'items': tuple(v.extra['items']) + tuple(new)}))
+    return UNIT
+
+
+def m_future_ready(e, st, fr, t, a):
+    return VAgg(name='ReadyFuture', fields={('f', 0): a[0]})
+
+
 def m_vec_with_capacity(e, st, fr, t, a):
     return VAgg(name='Vec', extra={'items': ()})
 
@@ -527,6 +550,27 @@ def m_vec_insert(e, st, fr, t, a):
     items.insert(i, a[2])
     _store(e, st, ref, VAgg(name='Vec', fields=v.fields, extra={**v.extra, 'items': tuple(items)}))
     return UNIT
+
+
+def m_entry_insert_entry(e, st, fr, t, a):
+    """Entry::insert_entry(entry, value): like HashMap::insert through the entry (the old value is dropped)"""
+    en = a[0]
+    if not (isinstance(en, VAgg) and en.name == 'HashEntry'):
+        return NotImplemented
+    import sysmodels as S
+    ref = en.fields[('f', 0)]
+    mp = _load(e, st, ref)
+    k = en.extra['key']
+    keys = mp.extra['keys']
+    if k in keys:
+        i = keys.index(k)
+        old = mp.fields[('f', i)]
+        _store(e, st, ref, VAgg(name='HashMap', fields={**mp.fields, ('f', i): a[1]}, extra={'keys': keys}))
+        e.dropper.drop(st, old, 'Entry::insert_entry replaces the value')
+    else:
+        i = len(keys)
+        _store(e, st, ref, VAgg(name='HashMap', fields={**mp.fields, ('f', i): a[1]}, extra={'keys': keys + (k,)}))
+    return VAgg(name='OccupiedEntry', fields={('f', 0): ref}, extra={'key': k})
 
 
 def m_hashmap_clear(e, st, fr, t, a):
@@ -715,14 +759,22 @@ def install(eng: Engine):
     add(r'^(core::num::<impl )?(usize|u64|u32|u8|i32|i64)>?::checked_sub$', m_checked_sub)
     add(r'^(core::num::<impl )?(usize|u64|u32|u8|i32|i64)>?::checked_add$', m_checked_add)
     add(r'^(core::num::<impl )?(usize|u64|u32|u8|i32|i64)>?::wrapping_add$', m_wrapping_add)
+    # value-driven: whatever the static iterator type is called, a VecIter value is iterated as such
+    import sysmodels as _S
+    add(r'^<.* as Iterator>::next$', _S.m_veciter_next)
+    add(r'^<.* as IntoIterator>::into_iter$', lambda e, st, fr, t, a: a[0] if isinstance(a[0], VAgg) and a[0].name == 'VecIter' else NotImplemented)
     add(r'^<.* as Iterator>::any::<', m_iter_any)
     add(r'^<.* as Iterator>::all::<', m_iter_all)
     add(r'^<.* as Iterator>::for_each::<', m_iter_for_each)
     add(r'^<.* as Iterator>::count$', m_iter_count)
+    add(r'^(std::collections::hash_map::)?Entry::<.*>::insert_entry$', m_entry_insert_entry)
     add(r'^HashMap::<.*>::clear$', m_hashmap_clear)
     add(r'^HashMap::<.*>::len$', m_hashmap_len)
     add(r'^HashMap::<.*>::is_empty$', m_hashmap_is_empty)
     add(r'^HashMap::<.*>::contains_key::<', m_hashmap_contains_key)
+    add(r'^<Vec<.*> as Extend<.*>>::extend::<', m_vec_extend)
+    add(r'^Vec::<.*>::extend::<', m_vec_extend)
+    add(r'^(std::future::)?ready::<', m_future_ready)
     add(r'^Vec::<.*>::retain::<', m_vec_retain)
     add(r'^Vec::<.*>::with_capacity$', m_vec_with_capacity)
     add(r'^Vec::<.*>::swap_remove$', m_vec_swap_remove)
